@@ -21,7 +21,10 @@ LOCAL INSTANCE Builtins
 
 Traces == ndJsonDeserialize(IOEnv.TRACE_FILE)
 
-Ty(x) == [t |-> "type", id |-> x]
+\* uid = the declaration that created the type: every struct/enum definition and every array / pointer typedef makes a
+\* fresh type (0 = built in or given by the harness), so two structurally equal types need not be one object
+TyU(x, u) == [t |-> "type", id |-> x, uid |-> u]
+Ty(x) == TyU(x, 0)
 Nm(x) == [t |-> "name", id |-> x]
 Tab0 == [n \in BuiltinNames |-> Ty(Builtin(n))]
 
@@ -34,7 +37,7 @@ RECURSIVE Fold(_, _, _)
 Fold(decls, i, st) ==
   IF i > Len(decls) \/ ~st.ok THEN st
   ELSE LET d == decls[i] IN
-       CASE d.kind = "type"  -> Fold(decls, i + 1, AddNames(st, d.names, Ty(d.type), 1))
+       CASE d.kind = "type"  -> Fold(decls, i + 1, AddNames(st, d.names, TyU(d.type, i), 1))
          [] d.kind = "alias" -> LET tgt == Resolve(st.tab, Nm(d.target)) IN
                                 IF ~IsType(tgt) THEN [st EXCEPT !.ok = FALSE] ELSE Fold(decls, i + 1, AddNames(st, d.names, tgt, 1))
          [] d.kind \in {"aliasarr", "aliasptr"} ->
@@ -43,7 +46,7 @@ Fold(decls, i, st) ==
               ELSE LET named == tgt.id.k \in {"struct", "union"} /\ tgt.id.name # ""
                        ty == IF d.kind = "aliasarr" THEN [k |-> "arr", elem |-> tgt.id, len |-> [k |-> "fixed", n |-> d.n]]
                              ELSE [k |-> "ptr", target |-> IF named THEN [k |-> "ref", name |-> tgt.id.name] ELSE tgt.id]
-                   IN Fold(decls, i + 1, AddNames(st, d.names, Ty(ty), 1))
+                   IN Fold(decls, i + 1, AddNames(st, d.names, TyU(ty, i), 1))
          [] d.kind = "addtype" -> LET r == AddType(st.tab, d.name, IF d.isname THEN Nm(d.target) ELSE Ty(d.target), d.replace) IN
                                   Fold(decls, i + 1, [tab |-> r.tab, ok |-> r.ok])
          [] OTHER -> Fold(decls, i + 1, st)
@@ -61,7 +64,10 @@ Clauses(T) ==
        \cup (IF \A j \in 1..Len(T.obs.same) :
                   LET a == Resolve(st.tab, Nm(T.obs.same[j][1]))
                       b == Resolve(st.tab, Nm(T.obs.same[j][2]))
-                  IN IsType(a) /\ IsType(b) => (T.obs.same[j][3] = (a = b))
+                  \* aliases of one type are the very same object; different types never are; two separately declared
+                  \* but structurally equal types (typedef T *a; typedef T *b;) may or may not be shared
+                  IN IsType(a) /\ IsType(b) => /\ (a = b => T.obs.same[j][3])
+                                               /\ (a.id # b.id => ~T.obs.same[j][3])
              THEN {} ELSE {"same-object"})
        \cup (IF T.obs.consts = T.consts THEN {} ELSE {"consts"})
 
